@@ -200,7 +200,7 @@ pub fn profile(name: &str) -> Profile {
         "serde" => Profile { name: "serde", weights: [2, 1, 22, 16, 22, 2, 10, 8, 2, 5, 2, 1, 3, 2, 2, 24, 3, 3, 1, 0, 0], max_entities: 24, snapshot_every: 1 },
         "clone" => Profile { name: "clone", weights: [3, 2, 22, 12, 16, 2, 10, 8, 2, 5, 2, 2, 4, 14, 18, 3, 4, 3, 1, 0, 0], max_entities: 24, snapshot_every: 1 },
         "res" => Profile { name: "res", weights: [3, 2, 14, 8, 10, 1, 8, 6, 2, 14, 3, 1, 2, 5, 5, 6, 3, 22, 22, 1, 0], max_entities: 16, snapshot_every: 1 },
-        "eq" => Profile { name: "eq", weights: [4, 2, 20, 10, 14, 1, 10, 8, 2, 8, 2, 1, 4, 10, 8, 6, 40, 6, 2, 0, 0], max_entities: 12, snapshot_every: 1 },
+        "eq" => Profile { name: "eq", weights: [4, 2, 20, 10, 14, 1, 10, 8, 10, 8, 2, 1, 4, 10, 8, 6, 40, 6, 2, 0, 0], max_entities: 12, snapshot_every: 1 },
         "par" => Profile { name: "par", weights: [1, 1, 16, 10, 8, 1, 8, 6, 2, 6, 2, 1, 2, 1, 1, 1, 0, 1, 1, 0, 60], max_entities: 60, snapshot_every: 1 },
         _ => Profile { name: "general", weights: general, max_entities: 48, snapshot_every: 1 },
     }
@@ -447,6 +447,20 @@ impl<G: ParRig> Hist<G> {
                     }
                 }
                 "EntryMulti" => {
+                    if G::N > 0 && self.rng.chance(1, 4) {
+                        // detour: add a component the entity lacks and take it away again through
+                        // one handle; the entity ends where it started, the world keeps an extra
+                        // (now empty) archetype. Pairs of such worlds feed the == checks.
+                        if let Some(id) = self.pick_live_id(w) {
+                            let comps = self.slots[w].as_ref().unwrap().model.ents[&id].clone();
+                            let absent: Vec<usize> = (0..G::N).filter(|k| comps[*k].is_none()).collect();
+                            if !absent.is_empty() {
+                                let k = absent[self.rng.below(absent.len())];
+                                let v = self.val();
+                                return Op::EntryMulti { w, id, steps: vec![(k, Some(v)), (k, None)] };
+                            }
+                        }
+                    }
                     if G::N > 0 {
                         let id = self.pick_any_id(w);
                         let n = 2 + self.rng.below(4);
